@@ -7,16 +7,16 @@ TRUST = ("Trusted base: the system-call contracts of /verif/prelude (external_bo
          "A-walk, A-drop, A-eintr, A-off_t, A-panic (DESIGN.md §6). unsafe fiemap and the FICLONE ioctl are trusted.")
 CHECKS = {
  'C01': ('proof', "Verus discharges, for all file contents, sizes, block sizes, short-count patterns and errnos allowed by the assumed kernel contracts, that each data-path function under contract (libfs copy loops and wrappers, CopyHandle copy paths, parblock partitioning and block job) returns Ok only after exactly the source bytes are at exactly the right offsets of the destination, with everything else of the destination untouched. Conditional on the kernel contracts and on the thread pool running every job (assumed).", '§5 C01'),
- 'C02': ('proof', "Verus proves, on slices of tree_walker (per source: the target base; per walked entry: the body of the walk loop) and on the per-operation slices of both workers, cp's path-mapping rule, the dispatch by kind (file -> Size then Copy, symlink -> Link with the read_link text, dir -> create_dir_all in the walker), and that a Link operation creates a symlink with exactly that text. Partial: that WalkDir enumerates every entry once is assumed; slices are hand-declared wrappers around verbatim statement ranges.", '§5 C02'),
+ 'C02': ('proof', "Verus proves, on the whole tree_walker (no walk error swallowed), on its slices (per source: the target base; per walked entry: the body of the walk loop), on the per-operation slices of both workers and on the option-to-config mapping: cp's path-mapping rule, the dispatch by kind (file -> Size then Copy, symlink -> Link with the read_link text, dir -> create_dir_all in the walker, with --dereference no Link is queued), and that a Link operation creates a symlink with exactly that text. Partial: that WalkDir delivers every entry once is assumed (walk_seq); slices are hand-declared wrappers around verbatim statement ranges.", '§5 C02'),
  'C03': ('proof', "Frame clauses proved by Verus on every function of the copy path: no inode other than the destination's changes, sources are opened read-only, and CopyHandle::new refuses a destination that designates the source inode under any alias. Partial: kill points are argued from per-call frames, bystanders outside the modelled calls are not covered.", '§5 C03'),
- 'C04': ('proof', "Error-flow contract proved by Verus for every function under contract: if a required system call failed (ghost fault counter grew) the function returns Err or has sent an Error update. Partial: failures hidden in exists()/is_dir() and main/thread plumbing are assumptions.", '§5 C04'),
+ 'C04': ('proof', "Error-flow contract proved by Verus for every function under contract: if a required system call failed (ghost fault counter grew) the function returns Err or has sent an Error update; Driver::copy of both drivers joins every spawned thread and drops no panic or error result; main's run phase returns Ok only if no Error update was received and the driver call returned Ok; the walker never swallows a walk error. Partial: one open finding (F4: finalisation errors are only logged in Drop); the thread pool is assumed to run every job.", '§5 C04'),
  'C05': ('proof', "Same obligations as C01, for the clauses whose proof uses the permissive parts of the kernel contracts: every legal short return of copy_file_range/read/pread/write/pwrite, ENOSYS/EXDEV/EPERM fallbacks, EINTR retry, FIEMAP/FICLONE unsupported.", '§5 C05'),
- 'C07': ('proof', "Termination (decreases clauses) of every loop in the functions under contract, proved by Verus under the kernel progress clauses. Partial: deadlock freedom of channels, pool and joins is not decided.", '§5 C07'),
+ 'C07': ('proof', "Termination (decreases clauses) of every loop in the functions under contract, proved by Verus under the kernel progress clauses; both drivers hand the walker an unbounded work queue, so it cannot block on workers that have exited. Partial: deadlock freedom of the pool, the joins and the update channel in general is not decided.", '§5 C07'),
  'C08': ('proof', "Verus proves on the walker's per-entry slice that with no-clobber an existing target yields Err with nothing queued or created, and on both workers' per-operation slices that an existing special-file destination is left alone and fails. Partial: interleavings of the walker's check with the workers are not decided.", '§5 C08'),
- 'C09': ('proof', "Verus proves on CopyHandle::new and needs_backup that with numbered backups an existing destination is renamed to a name that did not exist before the destination is re-created, that its inode is untouched, and that without a backup mode nothing is renamed. Narrow: the choice of the backup name (string/regex/ReadDir code in backup.rs) is trusted.", '§5 C09'),
+ 'C09': ('proof', "Verus proves on CopyHandle::new and needs_backup that with numbered backups an existing destination is renamed to a name that did not exist before the destination is re-created, that its inode is untouched, and that without a backup mode nothing is renamed. The choice of the backup name (string/regex/ReadDir code in backup.rs) is outside Verus: it is checked by a BOUNDED exhaustive enumeration on the real functions (stated bound, labelled bounded, not counted as proved).", '§5 C09'),
  'C10': ('proof', "Verus proves finalise_copy and the libfs metadata helpers against fchmod/futimens/fchown/fsync/xattr stand-ins: exact mode (incl. set-ID bits after chown), ns-exact times, xattrs, owner, and that disabled attributes cause no event.", '§5 C10'),
  'C11': ('proof', "Write-footprint postconditions proved by Verus: both drivers write only inside source data ranges (plus merge gaps); the destination is sized with ftruncate, not writes. Whether the filesystem then allocates is the kernel's business.", '§5 C11'),
- 'C12': ('proof', "Verus proves that every Copied(n) passed to the updater equals bytes actually transferred by the preceding copy call, and that ChannelUpdater batching never forwards more than it was given. Partial: channel closing and cross-thread order are not decided.", '§5 C12'),
+ 'C12': ('proof', "Verus proves that the sizes announced by the walker sum to the total length of the regular files walked (whole tree_walker, recursive sum), that Size is sent immediately before the Copy is queued, that every Copied(n) passed to the updater equals bytes actually transferred, and that ChannelUpdater batching never forwards more than it was given. Partial: channel closing and cross-thread order are not decided.", '§5 C12'),
  'C14': ('proof', "Verus proves copy_node issues exactly one mknod with the source's type, permission bits and device number (st_rdev), the FileType classification table, and the workers' replace/no-clobber logic for special files.", '§5 C14'),
  'C15': ('proof', "Verus proves the try_reflink mode table (never: no clone event; always: Ok only after a successful clone; auto: falls back), the FICLONE errno classification, and that the clone precedes any data copy in both drivers.", '§5 C15'),
  'C16': ('proof', "Verus proves on the validation range of main() (slice) that it has no effect on the file system model at all and that reaching the copy phase implies every rejection class main checks itself has been ruled out (no source, missing source, directory without recursive, several sources onto a non-directory, directory onto a file, source textually equal to destination or its target base); opts_check rejects force+no-clobber. Partial: clap/glob value parsing is external.", '§5 C16'),
